@@ -380,7 +380,7 @@ class ObjRec:
 
 class ListRec:
     """concrete prefix-free list: python list of SVs; or symbolic: length term + element array/opaque"""
-    __slots__ = ("items", "length", "elem", "arr", "sym", "farr", "cnt", "shift", "sums", "preds", "origin", "parts", "appended", "mem")
+    __slots__ = ("items", "length", "elem", "arr", "sym", "farr", "cnt", "shift", "sums", "preds", "origin", "parts", "appended", "mem", "memfn")
 
     def __init__(self, items=None, length=None, elem=("any",), arr=None, sym=None):
         self.items = items          # list[SV] when concrete, else None
@@ -393,6 +393,7 @@ class ListRec:
         self.sums = {}              # ghost sums: canonical element expression -> z3 Real (sum over all elements)
         self.origin = None          # (source list sym, [filter texts]) for lists produced by a filter comprehension
         self.mem = None             # ghost membership set (Array elem -> Bool) kept exact under append; dropped by removals
+        self.memfn = None           # membership as a function of the element (a filter comprehension: x in result <=> x in source and filter(x))
         self.appended = []          # symbolic object lists: [(position term, value)] for elements appended on this path
         self.parts = None           # (oid_a, oid_b) for a concatenation of two symbolic lists
         self.preds = []             # element-wise facts known for every element (canonical predicate texts over `x`)
@@ -413,13 +414,14 @@ class ListRec:
         r.parts = self.parts
         r.appended = list(self.appended)
         r.mem = self.mem
+        r.memfn = self.memfn
         return r
 
 
 class DictRec:
     """concrete: python dict key(hashable python const) -> SV, insertion ordered.
     symbolic: dom : Array(K,Bool), val : Array(K,sort) / per-field arrays, plus a size term"""
-    __slots__ = ("items", "ktype", "vtype", "dom", "val", "sym", "size", "farr", "over", "valsym")
+    __slots__ = ("items", "ktype", "vtype", "dom", "val", "sym", "size", "farr", "over", "valsym", "ordver")
 
     def __init__(self, items=None, ktype=("any",), vtype=("any",), dom=None, val=None, sym=None, size=None):
         self.items = items
@@ -432,6 +434,7 @@ class DictRec:
         self.farr = {}
         self.over = []          # symbolic dict with non-primitive values: [(key term, value)] latest last
         self.valsym = None      # values alias the value objects of another symbolic map (same key -> same object)
+        self.ordver = 0         # version of the key set: the ghost iteration order `sym#order[@ver]` belongs to one key set only
 
     @property
     def concrete(self):
@@ -443,6 +446,7 @@ class DictRec:
         r.farr = dict(self.farr)
         r.over = list(self.over)
         r.valsym = self.valsym
+        r.ordver = self.ordver
         return r
 
 
